@@ -242,3 +242,14 @@ M("c18-stream-sigma", "C18", "bottomup streaming uses confmap sigma for pafs", S
 M("c18-effscale-single", "C18", "single-instance chunks forget eff_scale on instances", GDC, "    sample[\"instances\"] = sample[\"instances\"] * eff_scale\n\n    # resize image\n    sample[\"image\"], sample[\"instances\"] = apply_resizer(\n        sample[\"image\"], sample[\"instances\"], scale=scale\n    )", "    sample[\"instances\"] = sample[\"instances\"] * 1.0\n\n    # resize image\n    sample[\"image\"], sample[\"instances\"] = apply_resizer(\n        sample[\"image\"], sample[\"instances\"], scale=scale\n    )")
 M("c18-stream-crop", "C18", "centered streaming re-crops with crop_hw swapped h/w and +1", SDS, "            make_centered_bboxes(ex[\"centroid\"][0], self.crop_hw[0], self.crop_hw[1]), 0\n", "            make_centered_bboxes(ex[\"centroid\"][0] + 1.0, self.crop_hw[0], self.crop_hw[1]), 0\n")
 M("c18-datapipe-resizer", "C18", "Resizer datapipe scales instances by scale**2", RS, "                ex[self.instances_key] = ex[self.instances_key] * self.scale\n", "                ex[self.instances_key] = ex[self.instances_key] * self.scale * self.scale\n")
+
+MT = "sleap_nn/training/model_trainer.py"
+LM = "sleap_nn/training/lightning_modules.py"
+M("c19-initial-unmasked", "C19", "initial_config.yaml saved with the live config", MT, "            self._save_config(f\"{self.dir_path}/initial_config.yaml\")\n", "            OmegaConf.save(config=self.config, f=f\"{self.dir_path}/initial_config.yaml\")\n")
+M("c19-chunks-unmasked", "C19", "chunks config saved with the live config", MT, "                self._save_config(save_path.as_posix())\n", "                OmegaConf.save(config=self.config, f=save_path.as_posix())\n")
+M("c19-mem-blank-only-wandb", "C19", "in-memory key blanked only with wandb (ckpt leak)", MT, "        if OmegaConf.select(self.config, \"trainer_config.wandb.api_key\") is not None:\n            self.config.trainer_config.wandb.api_key = \"\"\n\n        # save the configs", "        if self.config.trainer_config.use_wandb and OmegaConf.select(self.config, \"trainer_config.wandb.api_key\") is not None:\n            self.config.trainer_config.wandb.api_key = \"\"\n\n        # save the configs")
+M("c19-new-artifact", "C19", "new artifact (hparams dump) written with the live config before masking", MT, "        # set seed\n        torch.manual_seed(self.seed)\n", "        # set seed\n        torch.manual_seed(self.seed)\n        OmegaConf.save(config=self.config.trainer_config, f=f\"{self.dir_path}/trainer_hparams.yaml\")\n")
+M("c19-run-id-revert", "C19", "revert run_id schema field", "sleap_nn/config/trainer_config.py", "    group: Optional[str] = None\n    run_id: Optional[str] = None\n", "    group: Optional[str] = None\n")
+M("c19-chunks-not-deleted", "C19", "val chunks not deleted", MT, "                if (self.val_np_chunks_path).exists():\n                    shutil.rmtree(", "                if (self.val_np_chunks_path).exists() and False:\n                    shutil.rmtree(")
+M("c19-final-config-stale", "C19", "final training_config.yaml not re-saved after training", MT, "            # save the config with wandb runid\n            self._save_config(f\"{self.dir_path}/training_config.yaml\")\n", "            # save the config with wandb runid\n            pass\n")
+M("c19-model-config-copy", "C19", "TrainingModel keeps a defensive deep copy of the config (trainer's later blanking does not reach checkpoints)", LM, "        super().__init__()\n        self.config = config\n        self.skeletons = skeletons\n", "        super().__init__()\n        import copy\n\n        self.config = copy.deepcopy(config)\n        self.skeletons = skeletons\n")
